@@ -1,4 +1,5 @@
 """C02 - Peer lists are sound, bounded and never contain the requester (UDP, HTTP, WebTorrent)."""
+import os
 import random
 
 from vlib import *
@@ -139,6 +140,20 @@ def run(ctx):
     if res["ok"] or not tlc_is_spec_violation(res):
         raise ToolError("negative control failed: off-by-one selection range not rejected by TLC")
     ctx.stage("negative-control", cfg="PeerSelect_MC_Neg.cfg", error=res["error"])
+    # unbounded supplement: the slice arithmetic for ALL sizes, proved with TLAPS
+    import subprocess, re, shutil
+    shutil.rmtree(os.path.join(SPEC, ".tlacache", "PeerSelectLemmas.tlaps"), ignore_errors=True)
+    try:
+        p = subprocess.run(["tlapm", "--threads", "4", "PeerSelectLemmas.tla"], cwd=SPEC, stdout=subprocess.PIPE,
+                           stderr=subprocess.STDOUT, text=True, timeout=600)
+    except subprocess.TimeoutExpired:
+        raise ToolError("tlapm timed out")
+    m = re.search(r"All (\d+) obligations proved", p.stdout)
+    if not m:
+        raise ToolError("TLAPS did not prove the selection lemmas:\n" + p.stdout[-800:])
+    ctx.coverage["tlaps_obligations"] = int(m.group(1))
+    ctx.coverage["tlaps_discharged"] = int(m.group(1))
+    ctx.stage("tlaps", obligations=int(m.group(1)))
     cargo_build(ctx)
     maxlen, reps = (12, 4) if ctx.quick() else (16, 10)
     plan = [
